@@ -408,6 +408,23 @@ def r55(ctx: Ctx) -> RuleReport:
         elif 'top' in norm(n.target.slice):
             top_inc = n
     rep.add('penman.graph:Graph.reentrancies: the top has one implicit entrancy', fi.loc(), 'ok' if top_inc is not None else 'undecided')
+    if not loop_incs:
+        # Counter.update(<target of every edge>) counts the same thing
+        ups = [n for n in walk_local(fi.node) if isinstance(n, ast.Call) and isinstance(n.func, ast.Attribute) and n.func.attr == 'update' and n.args
+               and isinstance(n.args[0], (ast.GeneratorExp, ast.ListComp)) and len(n.args[0].generators) == 1]
+        ctr = any(isinstance(v, ast.Call) and norm(v.func) in ('Counter', 'collections.Counter') for vs in ctx.cg.local_assigns(fi).values()
+                  for v in vs if isinstance(v, ast.AST))
+        if len(ups) == 1 and ctr:
+            g = ups[0].args[0].generators[0]
+            tv = g.target.id if isinstance(g.target, ast.Name) else None
+            good = norm(g.iter) == 'self.edges()' and not g.ifs and norm(ups[0].args[0].elt) in (f'{tv}.target', f'{tv}[2]')
+            rep.add('penman.graph:Graph.reentrancies: the loop ranges over the edges of the graph', fi.loc(ups[0]), 'ok' if good else 'undecided', norm(ups[0])[:70])
+            rep.add('penman.graph:Graph.reentrancies: the target of the edge is counted', fi.loc(ups[0]), 'ok' if good else 'undecided')
+            rets = [n for n in walk_local(fi.node) if isinstance(n, ast.Return) and n.value is not None]
+            src = norm(rets[0].value) if rets else ''
+            good = '- 1' in src and ('>= 2' in src or '> 1' in src)
+            rep.add('penman.graph:Graph.reentrancies: reports count - 1 for nodes with at least two entrancies', fi.loc(), 'ok' if good else 'undecided', src[:80])
+            return rep
     if len(loop_incs) != 1:
         rep.undecided('penman.graph:Graph.reentrancies: one count per entrant edge', fi.loc(), f'{len(loop_incs)} increments in loops')
         return rep
